@@ -184,6 +184,66 @@ def endpoints(crate, an, fx, w):
     return None
 
 
+def value_at(an, t):
+    """value stored in the exactly named local that a reference term points to"""
+    if t[0] in ("addr", "at") and t[2] is None:
+        if t[1].startswith("L") and t[1][1:].isdigit() and 1 <= int(t[1][1:]) <= an.nargs:
+            pass
+        vals = [v for (var, ver), v in an.term_of.items() if var == t[1] and v[0] != "opq"]
+        if len(vals) == 1:
+            return vals[0]
+        if not vals and t[1].startswith("L") and t[1][1:].isdigit() and 1 <= int(t[1][1:]) <= an.nargs:
+            return ("arg", int(t[1][1:]))
+    return t
+
+
+def removal_endpoints(crate, an, fx, w):
+    """(tail, head) of the arc removed at write site w, or None"""
+    ev = w.ev
+    if ev["k"] == "store":
+        c, idx = store_elem(ev)
+        if idx is None or idx[0] != "bin" or idx[1] != "Shr":
+            return None
+        ab = rowmajor(idx[2], ("mem", "A1.order", ("e",), None))
+        return ab
+    inner = getattr(w, "inner", None)
+    if inner is not None:
+        # closure on the row: row.remove(&v); the row is get_mut(arcs, u) / get_mut(&u) in the parent
+        recv = ev["args"][0]
+        tail = None
+        c, idx = elem_access(recv)
+        if c is not None:
+            tail = idx
+        elif recv[0] == "call" and len(recv[3]) == 2:
+            tail = value_at(an, recv[3][1])
+        head = inner["args"][1] if len(inner["args"]) > 1 else None
+        # translate the closure-side head to the parent through the capture map
+        from .closures import capture_map
+        can = crate.an(inner_fn(crate, an, inner))
+        cm = capture_map(crate, can)
+        if cm is not None and head is not None:
+            for pv, cv in cm.valmap:
+                if cv == head:
+                    head = value_at(an, pv)
+        return (tail, head)
+    if len(ev["args"]) >= 2:
+        a0 = ev["args"][0]
+        c, idx = elem_access(a0)
+        E = value_at(an, ev["args"][1])
+        if c is not None:
+            return idx, E
+        if E[0] == "agg" and len(E[3]) == 2:
+            return E[3][0], E[3][1]
+    return None
+
+
+def inner_fn(crate, an, inner_ev):
+    for cp in crate.prog.children.get(an.path, []):
+        if inner_ev in crate.an(cp).events:
+            return cp
+    return an.path
+
+
 def rule_guard(crate, prop, tier):
     o = Obl("GUARD")
     muts = repr_mut_fns(crate)
@@ -248,6 +308,10 @@ def rule_guard(crate, prop, tier):
             rm = [w for w in ws if w.kind == "remove"]
             o.check(len(rm) >= 1 and not [w for w in ws if w.kind in ("insert", "toggle")], pretty, "remove-only",
                     "remove_arc does not only remove")
+            for w in rm:
+                ep = removal_endpoints(crate, an, fx, w)
+                o.check(ep is not None and tuple(ep) == (("arg", 2), ("arg", 3)), pretty, "remove-target",
+                        "remove_arc(u, v) does not remove exactly the arc (u, v)", w.span)
         # ADMIT
         if T.endswith("AdjacencyMap") and name == "add_arc":
             ents = [ev for ev in an.events if ev["k"] == "call" and ev["key"] == ENTRY_KEY]
@@ -291,11 +355,9 @@ def expr_no_overflow(crate, an, fx, b, t):
     return ok and all(expr_no_overflow(crate, an, fx, b, x) for x in t[1:] if isinstance(x, tuple))
 
 
-_total = {}
-
-
 def fn_total(crate, path, stack=()):
     """no panic can start in this body or its crate-local callees, for any arguments"""
+    _total = crate.__dict__.setdefault("_total_cache", {})
     if path in _total:
         return _total[path]
     if path in stack:
